@@ -20,6 +20,8 @@
 namespace vos {
 namespace {
 
+thread_local int tlBypass = 0;
+
 struct Spin
 {
   std::atomic_flag f = ATOMIC_FLAG_INIT;
@@ -147,6 +149,9 @@ std::string resStr(long r, int err)
 
 } // unnamed namespace
 
+Bypass::Bypass() { ++tlBypass; }
+Bypass::~Bypass() { --tlBypass; }
+
 void reset()
 {
   auto &s = S();
@@ -217,6 +222,7 @@ extern "C" {
 int clock_gettime(clockid_t clk, struct timespec *ts)
 {
   static auto fn = real<int (*)(clockid_t, timespec *)>("clock_gettime");
+  if(tlBypass) return fn(clk, ts);
   if(clk == CLOCK_MONOTONIC) {
     auto &s = S();
     Guard g(s.mtx);
@@ -232,6 +238,7 @@ int clock_gettime(clockid_t clk, struct timespec *ts)
 int poll(struct pollfd *fds, nfds_t n, int timeout)
 {
   static auto fn = real<int (*)(pollfd *, nfds_t, int)>("poll");
+  if(tlBypass) return fn(fds, n, timeout);
   auto &s = S();
   Directive d;
   bool have = false;
@@ -252,7 +259,7 @@ int poll(struct pollfd *fds, nfds_t n, int timeout)
       Guard g(s.mtx);
       std::string ev;
       for(nfds_t i = 0; i < n; ++i) ev += (i ? "," : "") + std::to_string(r > 0 ? fds[i].revents : 0);
-      logLine("poll [" + who + "] timeout=" + std::to_string(timeout) + " at=" + std::to_string(at) + " " + how + " -> " + resStr(r, err) + " rev=" + ev);
+      logLine("poll [" + who + "] timeout=" + std::to_string(timeout) + " at=" + std::to_string(at) + " adv=" + std::to_string((s.vnow - at) / 1000000) + " " + how + " -> " + resStr(r, err) + " rev=" + ev);
     }
     if(r < 0) errno = err;
     return r;
@@ -260,6 +267,12 @@ int poll(struct pollfd *fds, nfds_t n, int timeout)
   if(inject) return finish(-1, inject, "fault");
   if(have) {
     if(d.kind == "eintr") {
+      if(timeout >= 0 && d.arg > timeout) {
+        // the signal would arrive after the timeout expired: the poll times out first
+        for(nfds_t i = 0; i < n; ++i) fds[i].revents = 0;
+        if(virt && timeout > 0) advance_ns(timeout * 1000000LL);
+        return finish(0, 0, "eintr-late");
+      }
       if(virt && d.arg > 0) advance_ns(d.arg * 1000000LL);
       return finish(-1, EINTR, "eintr");
     }
@@ -323,6 +336,7 @@ int poll(struct pollfd *fds, nfds_t n, int timeout)
 ssize_t send(int fd, void const *buf, size_t len, int flags)
 {
   static auto fn = real<ssize_t (*)(int, void const *, size_t, int)>("send");
+  if(tlBypass) return fn(fd, buf, len, flags);
   auto &s = S();
   Directive d;
   bool have = false;
@@ -356,6 +370,7 @@ ssize_t send(int fd, void const *buf, size_t len, int flags)
 ssize_t sendto(int fd, void const *buf, size_t len, int flags, struct sockaddr const *addr, socklen_t alen)
 {
   static auto fn = real<ssize_t (*)(int, void const *, size_t, int, sockaddr const *, socklen_t)>("sendto");
+  if(tlBypass) return fn(fd, buf, len, flags, addr, alen);
   auto &s = S();
   Directive d;
   bool have = false;
@@ -390,6 +405,7 @@ ssize_t sendto(int fd, void const *buf, size_t len, int flags, struct sockaddr c
 ssize_t recv(int fd, void *buf, size_t len, int flags)
 {
   static auto fn = real<ssize_t (*)(int, void *, size_t, int)>("recv");
+  if(tlBypass) return fn(fd, buf, len, flags);
   auto &s = S();
   Directive d;
   bool have = false;
@@ -422,6 +438,7 @@ ssize_t recv(int fd, void *buf, size_t len, int flags)
 ssize_t recvfrom(int fd, void *buf, size_t len, int flags, struct sockaddr *addr, socklen_t *alen)
 {
   static auto fn = real<ssize_t (*)(int, void *, size_t, int, sockaddr *, socklen_t *)>("recvfrom");
+  if(tlBypass) return fn(fd, buf, len, flags, addr, alen);
   auto &s = S();
   Directive d;
   bool have = false;
@@ -451,6 +468,7 @@ ssize_t recvfrom(int fd, void *buf, size_t len, int flags, struct sockaddr *addr
 int socket(int domain, int type, int protocol)
 {
   static auto fn = real<int (*)(int, int, int)>("socket");
+  if(tlBypass) return fn(domain, type, protocol);
   auto &s = S();
   int inject;
   { Guard g(s.mtx); inject = nextCall("socket"); }
@@ -472,6 +490,7 @@ int socket(int domain, int type, int protocol)
 int accept(int fd, struct sockaddr *addr, socklen_t *alen)
 {
   static auto fn = real<int (*)(int, sockaddr *, socklen_t *)>("accept");
+  if(tlBypass) return fn(fd, addr, alen);
   auto &s = S();
   Directive d;
   bool have = false;
@@ -504,6 +523,7 @@ int accept(int fd, struct sockaddr *addr, socklen_t *alen)
 int close(int fd)
 {
   static auto fn = real<int (*)(int)>("close");
+  if(tlBypass) return fn(fd);
   auto &s = S();
   {
     Guard g(s.mtx);
@@ -523,6 +543,7 @@ int close(int fd)
   int NAME PROTO                                                                    \
   {                                                                                 \
     static auto fn = real<int (*) PROTO>(#NAME);                                    \
+    if(tlBypass) return fn ARGS;                                                    \
     auto &s = S();                                                                  \
     Directive d;                                                                    \
     bool have = false;                                                              \
@@ -562,6 +583,7 @@ int fcntl(int fd, int cmd, ...)
   va_start(ap, cmd);
   long arg = va_arg(ap, long);
   va_end(ap);
+  if(tlBypass) return fn(fd, cmd, arg);
   auto &s = S();
   bool ours;
   int inject = 0;
@@ -585,6 +607,7 @@ int fcntl(int fd, int cmd, ...)
 int getaddrinfo(char const *node, char const *service, struct addrinfo const *hints, struct addrinfo **res)
 {
   static auto fn = real<int (*)(char const *, char const *, addrinfo const *, addrinfo **)>("getaddrinfo");
+  if(tlBypass) return fn(node, service, hints, res);
   auto &s = S();
   int inject;
   bool offline;
